@@ -132,6 +132,13 @@ CHECKS['C15'] = dict(
     design_ref='DESIGN.md section 3 C15',
     note='crash model = process kill between filesystem calls (no power-loss reordering, no torn sectors); content compared modulo the CRLF->LF rewriting of the maildir backend; messages the unacknowledged in-flight command could touch may be in their before- or after-state; one recorded known finding (kill inside CREATE leaves a half-made mailbox directory)',
     technique='exhaustive enumeration of crash points of short histories on the implementation (filesystem interposition, snapshot per boundary, recovery by a fresh backend)')
+CHECKS['C14'] = dict(
+    engine='E5 deviation (fault at every loop-iteration boundary) + E6 fault/crash injection (vf/checks/c14.py)',
+    category='fault_enumeration',
+    text='Commands under test: MOVE 1, MOVE 1:3, UID MOVE 1:*, MOVE into the selected mailbox itself, COPY 1:3, multi-message APPEND (3 messages; 2 into another mailbox), single APPEND, EXPUNGE of 3, each with unique-token messages, on the dict backend and the maildir backend (++; thorough also fs). (a) For every command the connection task is cancelled, the connection reset, or EOF delivered at EVERY loop-iteration boundary from the first byte of the command to quiescence (one execution per boundary and fault kind), and a synchronising-literal multi-APPEND is abandoned after each literal in four ways. (b) Storage faults: on dict the n-th MailboxData.append/copy/move/delete call raises, on maildir the n-th space-consuming filesystem call fails with ENOSPC, for every n the command reaches. (c) Process kill at every filesystem boundary of four MOVE histories per layout, followed by restart (the C15 machinery). After each fault a fresh connection dumps both mailboxes. Oracle: every pre-existing token is in source or destination (exactly one after an acknowledged MOVE, none left behind by an acknowledged multi-message MOVE); a multi-message APPEND is never partially stored and nothing is stored when it was answered NO/BAD; a command answered NO or BAD leaves every mailbox unchanged; no hang after the fault.',
+    design_ref='DESIGN.md section 3 C14',
+    note='asyncio subsystem; one acting session; a multi-APPEND that was completely received and stored although its OK could not be delivered (connection already gone) counts as all; maildir under worker threads is not explored; three recorded known findings (multi-APPEND is stored message by message)',
+    technique='exhaustive fault enumeration on the implementation: one execution per (command, boundary, fault) / per n-th failing storage call / per crash point')
 NA = {}
 
 def main():
